@@ -252,7 +252,9 @@ impl Components {
                 self.data_streams
                     .package(self.flow_ctrl.sender.clone(), true),
             ),
-            // TODO: datagram
+            // repeat to send multi datagram frames in one packet; last, because the form
+            // without length fills the packet
+            Repeat(self.datagram_flow.clone()),
         ));
         let handshake_packages = self.crypto_streams[Epoch::Handshake]
             .outgoing()
@@ -268,7 +270,9 @@ impl Components {
                 self.data_streams
                     .package(self.flow_ctrl.sender.clone(), false),
             ),
-            // TODO: datagram
+            // repeat to send multi datagram frames in one packet; last, because the form
+            // without length fills the packet
+            Repeat(self.datagram_flow.clone()),
         ));
         DataSources {
             initial: Box::new(initial_packages),
